@@ -173,9 +173,15 @@ example :
 /-! ### top-k (P1) -/
 
 /-- for every `select_nth_unstable` / `sort_unstable` satisfying the std contracts, every input and
-    every k (including 0 and k > len): top_k = the k smallest items in ascending order -/
+    every k that is a usize (including 0, k > len, k ≥ 2^63 where 2k saturates, and k = usize::MAX):
+    top_k = the k smallest items in ascending order -/
 theorem topk_eq (S : TopK.Std) (hsel : SelectContract S.selectNth) (hsort : SortContract S.sortUnstable)
-    (xs : List Int) (k : Nat) : TopK.topK S xs k = (isort xs).take k := TopK.topK_eq S hsel hsort xs k
+    (xs : List Int) (k : Nat) (hk : k ≤ TopK.usizeMax) : TopK.topK S xs k = (isort xs).take k :=
+  TopK.topK_eq S hsel hsort xs k hk
+
+/-- the saturated limit is usize::MAX from k = 2^63 on, and never below k -/
+example : TopK.limitOf (2 ^ 63) = 2 ^ 64 - 1 ∧ TopK.limitOf (2 ^ 64 - 1) = 2 ^ 64 - 1 ∧ TopK.limitOf 3 = 6 := by
+  decide
 
 /-- non-vacuity: insertion sort satisfies the sort contract, and a selection that sorts satisfies the
     selection contract -/
